@@ -1,10 +1,15 @@
-"""Property -> scenario registry (tiers: number of runs and wall budget in seconds)."""
+"""Property -> scenario registry, discovered from checks/parts/Cxx.py.
 
-REGISTRY = {
-    'C18': {'parts': [{'scenario': 'scenarios.s_auth', 'chunk': 40}],
-            'quick': {'runs': 6000, 'budget': 35}, 'thorough': {'runs': 400000, 'budget': 900}},
-    'C13': {'parts': [{'scenario': 'scenarios.s_conn', 'chunk': 20}],
-            'quick': {'runs': 4000, 'budget': 40}, 'thorough': {'runs': 300000, 'budget': 900}},
-    'C17': {'parts': [{'scenario': 'scenarios.s_sync', 'chunk': 40}],
-            'quick': {'runs': 6000, 'budget': 40}, 'thorough': {'runs': 400000, 'budget': 900}},
-}
+Each part module defines ENTRY (parts/tiers) and TEXT (manifest texts: level, ref, note[, technique])."""
+import importlib
+import os
+import pkgutil
+
+REGISTRY = {}
+TEXTS = {}
+
+_d = os.path.join(os.path.dirname(__file__), 'parts')
+for _m in sorted(pkgutil.iter_modules([_d])):
+    _mod = importlib.import_module('checks.parts.' + _m.name)
+    REGISTRY[_m.name] = _mod.ENTRY
+    TEXTS[_m.name] = _mod.TEXT
